@@ -22,6 +22,8 @@ CORPUS = [
     0, 1, -1, 2, 3, -3, 7, -7, 10, 2 ** 31 - 1, 2 ** 31, -2 ** 31, 2 ** 31 + 1, 2 ** 63 - 1, 2 ** 63, 2 ** 63 + 1, -2 ** 63 - 1,
     10 ** 40, -10 ** 40, 10 ** 40 + 1, 9999, 10000, 10001, 99999999,
     0.0, -0.0, 1.0, -1.0, 0.5, -2.5, 1e-300, 5e-324, 1e300, 1.7976931348623157e308, 2.0 ** 53, 2.0 ** 53 + 2, 3.0, 1e16,
+    # integers and floats that differ only beyond the 53 bits of a float (mixed comparisons must stay exact)
+    2.0 ** 63, -2.0 ** 63, 1e40, 2 ** 53, 2 ** 53 + 1, -2 ** 53 - 1, 10 ** 16 + 1,
     '', 'a', 'ab', 'b', 'A', 'aa', ' ', 'é', '中文', '\U0001f600', 'á', '10', 'z' * 3,
 ]
 
